@@ -6,5 +6,7 @@ pub mod exec;
 pub mod frames;
 pub mod rx;
 pub mod sim;
+pub mod srv;
+pub mod srvgen;
 pub mod tx;
 pub mod types;
